@@ -91,6 +91,12 @@ def make_case(case, seed, thorough):
     sport = rng.choice([443, 443, 443, 44330, 8443, 4433, 1, 65535])
     ep = tcpcap.random_ep(rng, sport=sport)
     segs = tcpcap.segments(conn.events, ep, tcpcap.make_cutter(rng, segkind, conn.events))
+    if case["kind"] == "random" and rng.random() < 0.12:
+        segs = tcpcap.add_repacketized(segs, rng, rng.choice([1, 2]))   # retransmission that coalesces the following segment(s)
+        segkind += "+repack"
+    if case["kind"] == "random" and rng.random() < 0.25:
+        segs = tcpcap.interleave_app(segs, conn.events, rng)        # full-duplex application phase
+        segkind += "+duplex"
     fl = scene.tls_flow(conn, ep, segs)
     items = scene.stamp(scene.merge([fl], rng, "concat"), rng, rng.choice(scene.TS_STYLES))
     extra = []
